@@ -1,36 +1,45 @@
 ------------------------------- MODULE Kismet -------------------------------
 (***************************************************************************)
-(* The kismet-cache protocol on one plain cache directory, structured like  *)
-(* the code: ONE ACTION PER SYSTEM CALL, in the order the library issues    *)
-(* them (src/cache_dir.rs, src/raw_cache.rs, filetime, tempfile), branch    *)
+(* The kismet-cache protocol on one cache root -- a plain directory or a    *)
+(* sharded one -- structured like the code: ONE ACTION PER SYSTEM CALL, in  *)
+(* the order the library issues them (src/cache_dir.rs, src/raw_cache.rs,   *)
+(* src/plain.rs, src/sharded.rs, filetime, tempfile, std::fs), branch       *)
 (* conditions exactly the code's.  Participants are independent processes   *)
-(* (own handle, own trigger state) that share nothing but the filesystem.   *)
+(* (own handle, own trigger state, own load estimates) that share nothing   *)
+(* but the filesystem.                                                      *)
 (*                                                                         *)
-(* The control flow is given twice over the same definitions:               *)
-(*   NextCall(p)   the call participant p issues in its current local state *)
-(*   After(p, c)   its next local state once call c has completed           *)
-(* Kismet.tla's Next uses them with results computed by PosixFS (Ret/Eff);  *)
-(* TraceKismet.tla uses them with the calls recorded from the real library, *)
-(* so a recorded execution is accepted iff it is a path through this model. *)
+(* The control flow is given once, as data:                                 *)
+(*   NextCallL(p, l, lbl)   the call a participant with local state l       *)
+(*                          issues at label lbl                             *)
+(*   AfterL(p, l, lbl, c)   its next label/local state once call c (with    *)
+(*                          its result) has completed                       *)
+(* Kismet.tla's Next composes them with PosixFS!Pred/Eff; TraceKismet.tla   *)
+(* uses them with the calls recorded from the real library, so a recorded   *)
+(* execution is accepted iff it is a path through this model.               *)
 (*                                                                         *)
 (* Deliberate deviations from an idealised design are named:                *)
 (*   StampBeforePublish  times/permissions are fixed on the private file    *)
 (*   RetryWholePublish   any publish error => mkdir -p, whole publish again *)
-(*   WriteFallback       filetime 0.2.29 re-opens O_WRONLY when the         *)
-(*                       read-only open fails (pinned tree; FALSE = repaired)*)
+(*   WriteFallback       filetime 0.2.29's path API re-opens O_WRONLY when  *)
+(*                       the read-only open fails (TRUE = pinned tree;      *)
+(*                       FALSE = after the C05 repair)                      *)
+(*   EstimateWrongShard  the sharded write path updates the estimate of h1  *)
+(*                       even when the file went to h2                      *)
 (***************************************************************************)
-EXTENDS Props, SecondChance
+EXTENDS Props, ShardMap
 
 CONSTANTS Procs,          \* set of participants (integers)
           Prog,           \* Prog[p] : sequence of [api, key, val, chunks]
-          Cap,            \* capacity of the cache directory
-          Maint,          \* "never" | "always" | "nondet": does the trigger fire on a write
-          DirsExist,      \* do W and W/.kismet_temp exist initially
-          Pre,            \* set of [key, val]: entries present initially
+          Cap,            \* capacity of each cache directory (shard capacity for a sharded root)
+          Maint,          \* "never" | "always" | "nondet": does the trigger fire on an event
+          DirsExist,      \* do the directories (and their .kismet_temp) exist initially
+          Pre,            \* set of [key, val]: entries present initially (in the key's primary directory)
           WriteFallback,  \* filetime path API behaviour (see above)
           CrashBudget,    \* how many participants may crash
           AdvBudget,      \* how many published files an outside party may delete
-          Debris          \* set of [name, age]: files lying in .kismet_temp initially (age in seconds)
+          Debris,         \* set of [name, age]: files lying in the first directory's .kismet_temp initially
+          FrontKind,          \* "plain" | "sharded"
+          KeyShards       \* sharded: [key -> <<primary, secondary>>] shard indices (0/1; two shards); plain: unused
 
 VARIABLES fs, clock, nino, pc, loc, aux, last
 
@@ -38,14 +47,26 @@ vars == <<fs, clock, nino, pc, loc, aux, last>>
 
 Delta == 120
 MaxAge == 3600
-B == "W"
-TD == "W/.kismet_temp"
-PB == [d |-> ".", n |-> "W"]
-PT == [d |-> "W", n |-> ".kismet_temp"]
-PKey(k) == [d |-> B, n |-> k]
-PTmp(t) == [d |-> TD, n |-> t]
+Root == "W"
+NShards == 2
+ShardDir(i) == Root \o "/" \o DirName(i)
+BaseDirs == IF FrontKind = "plain" THEN {Root} ELSE {ShardDir(i) : i \in 0..NShards - 1}
+TDof(b) == b \o "/.kismet_temp"
+\* path record of a directory id
+PathOfDir(id) == IF id = Root THEN [d |-> ".", n |-> Root]
+                 ELSE IF IsTempDir(id) THEN [d |-> ParentOfTemp(id), n |-> ".kismet_temp"]
+                 ELSE [d |-> Root, n |-> SubSeq(id, Len(Root) + 2, Len(id))]
+\* the directories create_dir_all walks for `id`, deepest first
+Chain(id) == IF id = Root THEN <<Root>>
+             ELSE IF IsTempDir(id) THEN (IF ParentOfTemp(id) = Root THEN <<id, Root>> ELSE <<id, ParentOfTemp(id), Root>>)
+             ELSE <<id, Root>>
+PIn(b, n) == [d |-> b, n |-> n]
 Tm(t) == <<t, 0>>
-Cfg == [roots |-> <<[id |-> "W", kind |-> "plain", role |-> "w"]>>, front |-> "plain"]
+Cfg == [roots |-> <<[id |-> Root, kind |-> FrontKind, role |-> "w"]>>, front |-> FrontKind]
+
+\* the key's two candidate directories, primary first
+KeyDirsOf(k) == IF FrontKind = "plain" THEN <<Root, Root>> ELSE <<ShardDir(KeyShards[k][1]), ShardDir(KeyShards[k][2])>>
+OtherShard(b) == IF b = ShardDir(0) THEN ShardDir(1) ELSE ShardDir(0)
 
 Op(p) == loc[p].op
 TmpNameL(p, l) == "t" \o ToString(p) \o "x" \o ToString(l.opi)
@@ -58,12 +79,17 @@ Content(key, val, w, of, upto) ==
 \* ---- initial state ----------------------------------------------------------
 PreSeq == SetToSeq(Pre)
 PreIno(i) == "i" \o ToString(i)
+PreDir(e) == KeyDirsOf(e.key)[1]
+FirstDir == IF FrontKind = "plain" THEN Root ELSE ShardDir(0)
 InitFS ==
     IF ~DirsExist THEN EmptyFS
-    ELSE [ents |-> ("." :> ("W" :> "DIR")) @@
-                   ("W" :> ((".kismet_temp" :> "DIR") @@ [k \in {PreSeq[i].key : i \in 1..Len(PreSeq)} |->
-                                PreIno(CHOOSE i \in 1..Len(PreSeq) : PreSeq[i].key = k)])) @@
-                   (TD :> [n \in {d.name : d \in Debris} |-> "deb" \o n]),
+    ELSE [ents |-> ("." :> (Root :> "DIR")) @@
+                   (IF FrontKind = "plain" THEN <<>> ELSE (Root :> [n \in {DirName(i) : i \in 0..NShards - 1} |-> "DIR"])) @@
+                   [b \in BaseDirs |-> ((".kismet_temp" :> "DIR") @@
+                        [k \in {PreSeq[i].key : i \in {j \in 1..Len(PreSeq) : PreDir(PreSeq[j]) = b}} |->
+                            PreIno(CHOOSE i \in 1..Len(PreSeq) : PreSeq[i].key = k)])] @@
+                   [t \in {TDof(b) : b \in BaseDirs} |->
+                        IF t = TDof(FirstDir) THEN [n \in {d.name : d \in Debris} |-> "deb" \o n] ELSE <<>>],
           inos |-> [x \in {PreIno(i) : i \in 1..Len(PreSeq)} |->
                         LET i == CHOOSE j \in 1..Len(PreSeq) : PreIno(j) = x IN
                         [mode |-> 256, at |-> Tm(9000 + i - Delta), mt |-> Tm(9000 + i), nlink |-> 1,
@@ -73,16 +99,23 @@ InitFS ==
                         [mode |-> 384, at |-> Tm(10000 - d.age), mt |-> Tm(10000 - d.age), nlink |-> 1, c |-> EmptyContent]]]
 
 NoOp == [api |-> "none", key |-> "", val |-> "", chunks |-> 0]
+\* local state of a participant:
+\*   b      the cache directory the current lookup / publish addresses      td   the directory holding its temp file
+\*   mb     the directory under maintenance (prune + temp cleanup)          mcont what follows that maintenance
+\*   mkq, mki, mk2, mkok, mkerr   the create_dir_all sub-machine (chain, index, second attempt?, continuations)
+\*   est    sharded: load estimates (function directory -> 0..255)          probe sharded: which candidate is looked at (1|2)
 IdleLoc == [opi |-> 0, op |-> NoOp, now |-> 0, tmp |-> "", tino |-> "", tfd |-> FALSE, fd |-> "", dfd |-> "",
             names |-> <<>>, idx |-> 0, ents |-> <<>>, evict |-> <<>>, back |-> <<>>, att |-> 1,
-            cont |-> "", hit |-> "", wr |-> 0, fired |-> FALSE, stmode |-> 0, stat |-> <<>>, rr |-> <<>>, cap |-> Cap]
+            cont |-> "", hit |-> "", wr |-> 0, fired |-> FALSE, stmode |-> 0, stat |-> <<>>, rr |-> <<>>, cap |-> Cap,
+            b |-> Root, td |-> TDof(Root), mb |-> Root, mcont |-> "", mkq |-> <<>>, mki |-> 1, mkok |-> "", mkerr |-> "",
+            est |-> <<>>, probe |-> 1, h1 |-> Root, h2 |-> Root, maintained |-> FALSE, rem |-> 0, bound |-> TRUE]
 
 Init ==
     /\ fs = InitFS
     /\ clock = 10000
     /\ nino = Cardinality(Pre) + 1
     /\ pc = [p \in Procs |-> "idle"]
-    /\ loc = [p \in Procs |-> IdleLoc]
+    /\ loc = [p \in Procs |-> [IdleLoc EXCEPT !.est = [b \in BaseDirs |-> 0]]]
     /\ aux = [pubs |-> [x \in DOMAIN InitFS.inos |-> TRUE],
               supplied |-> {<<e.key, e.val>> : e \in Pre},
               errs |-> {}, rets |-> <<>>, crashes |-> 0, advs |-> 0, crashed |-> {}]
@@ -92,13 +125,12 @@ Init ==
 ChmodMode(m) == m - (IF ModeBit(m, 128) THEN 128 ELSE 0) - (IF ModeBit(m, 16) THEN 16 ELSE 0) - (IF ModeBit(m, 2) THEN 2 ELSE 0)
 
 \* ---- the call a participant issues next ------------------------------------
-\* (without its result; `ph` says whether the application ("prep"/"app") or the library makes it)
 SysLabels == {"g1", "g2", "g3", "t1", "t2", "t3", "t4",
-              "a1", "a2", "a2s", "a2b", "a2bs", "a2c", "a2cs", "a3", "a4",
+              "a1", "k1", "k1s", "k2", "k2s", "a3", "a4", "x1",
               "m1", "m2", "m3", "m4", "m5", "m7", "m8a", "m8w", "m8b", "m8c", "m9",
               "c1", "c2", "c3", "c4", "c4u", "c5", "c6",
               "p1", "p1w", "p2", "p3", "p4", "p5", "p6", "q1", "q2", "q3", "q4", "p7",
-              "r1", "r1s", "d1", "d2", "d3"}
+              "d1", "d2", "d3"}
 
 RO == <<"RDONLY", "CLOEXEC">>
 WO == <<"WRONLY", "CLOEXEC">>
@@ -106,70 +138,68 @@ DIRFL == <<"RDONLY", "DIRECTORY", "CLOEXEC">>
 
 NextCallL(p, l, lbl) ==
     LET k == l.op.key IN
-    CASE lbl = "g1" -> [call |-> "open", path |-> PKey(k), flags |-> RO, ph |-> "lib"]
+    CASE lbl = "g1" -> [call |-> "open", path |-> PIn(l.b, k), flags |-> RO, ph |-> "lib"]
       [] lbl = "g2" -> [call |-> "stat", via |-> "fd", ino |-> l.fd, ph |-> "lib"]
       [] lbl = "g3" -> [call |-> "utimens", via |-> "fd", ino |-> l.fd, atk |-> "set", at |-> l.stat.mt, mtk |-> "omit", ph |-> "lib"]
-      [] lbl = "t1" -> [call |-> "open", path |-> PKey(k), flags |-> RO, ph |-> "lib"]
-      [] lbl = "t2" -> [call |-> "open", path |-> PKey(k), flags |-> WO, ph |-> "lib"]
+      [] lbl = "t1" -> [call |-> "open", path |-> PIn(l.b, k), flags |-> RO, ph |-> "lib"]
+      [] lbl = "t2" -> [call |-> "open", path |-> PIn(l.b, k), flags |-> WO, ph |-> "lib"]
       [] lbl = "t3" -> [call |-> "utimens", via |-> "fd", ino |-> l.fd, atk |-> "set", at |-> Tm(l.now), mtk |-> "omit", ph |-> "lib"]
       [] lbl = "t4" -> [call |-> "close", via |-> "fd", ino |-> l.fd, ph |-> "lib"]
-      \* application: temp_dir() + NamedTempFile + writes
-      [] lbl = "a1" -> [call |-> "stat", path |-> PT, ph |-> "lib"]
-      [] lbl \in {"a2", "a2c"} -> [call |-> "mkdir", path |-> PT, cmode |-> 511, ph |-> "lib"]
-      [] lbl \in {"a2s", "a2cs"} -> [call |-> "stat", path |-> PT, ph |-> "lib"]
-      [] lbl = "a2b" -> [call |-> "mkdir", path |-> PB, cmode |-> 511, ph |-> "lib"]
-      [] lbl = "a2bs" -> [call |-> "stat", path |-> PB, ph |-> "lib"]
-      [] lbl = "a3" -> [call |-> "open", path |-> PTmp(TmpNameL(p, l)), flags |-> <<"RDWR", "CREAT", "EXCL", "CLOEXEC">>, cmode |-> 384, ph |-> "prep"]
+      \* temp_dir(): ensure_directory = stat, then create_dir_all
+      [] lbl = "a1" -> [call |-> "stat", path |-> PathOfDir(l.td), ph |-> "lib"]
+      [] lbl \in {"k1", "k2"} -> [call |-> "mkdir", path |-> PathOfDir(l.mkq[l.mki]), cmode |-> 511, ph |-> "lib"]
+      [] lbl \in {"k1s", "k2s"} -> [call |-> "stat", path |-> PathOfDir(l.mkq[l.mki]), ph |-> "lib"]
+      \* application: NamedTempFile + writes
+      [] lbl = "a3" -> [call |-> "open", path |-> PIn(l.td, TmpNameL(p, l)), flags |-> <<"RDWR", "CREAT", "EXCL", "CLOEXEC">>, cmode |-> 384, ph |-> "prep"]
       [] lbl = "a4" -> [call |-> "write", via |-> "fd", ino |-> l.tino, ph |-> "prep"]
+      \* sharded write path: does the key already live in the candidate the load order ranks second?
+      [] lbl = "x1" -> [call |-> "stat", path |-> PIn(l.h2, k), ph |-> "lib"]
       \* maintenance: prune
-      [] lbl = "m1" -> [call |-> "open", path |-> PB, flags |-> DIRFL, ph |-> "lib"]
-      [] lbl = "m2" -> [call |-> "stat", via |-> "fd", dir |-> B, ph |-> "lib"]
-      [] lbl \in {"m3", "m5"} -> [call |-> "getdents", via |-> "fd", dir |-> B, ph |-> "lib"]
-      [] lbl = "m4" -> [call |-> "stat", path |-> PKey(l.names[l.idx]), nofollow |-> TRUE, ph |-> "lib"]
-      [] lbl = "m7" -> [call |-> "unlink", path |-> PKey(l.evict[l.idx]), ph |-> "lib"]
-      [] lbl = "m8a" -> [call |-> "open", path |-> PKey(l.back[l.idx]), flags |-> RO, ph |-> "lib"]
-      [] lbl = "m8w" -> [call |-> "open", path |-> PKey(l.back[l.idx]), flags |-> WO, ph |-> "lib"]
+      [] lbl = "m1" -> [call |-> "open", path |-> PathOfDir(l.mb), flags |-> DIRFL, ph |-> "lib"]
+      [] lbl = "m2" -> [call |-> "stat", via |-> "fd", dir |-> l.mb, ph |-> "lib"]
+      [] lbl \in {"m3", "m5"} -> [call |-> "getdents", via |-> "fd", dir |-> l.mb, ph |-> "lib"]
+      [] lbl = "m4" -> [call |-> "stat", path |-> PIn(l.mb, l.names[l.idx]), nofollow |-> TRUE, ph |-> "lib"]
+      [] lbl = "m7" -> [call |-> "unlink", path |-> PIn(l.mb, l.evict[l.idx]), ph |-> "lib"]
+      [] lbl = "m8a" -> [call |-> "open", path |-> PIn(l.mb, l.back[l.idx]), flags |-> RO, ph |-> "lib"]
+      [] lbl = "m8w" -> [call |-> "open", path |-> PIn(l.mb, l.back[l.idx]), flags |-> WO, ph |-> "lib"]
       [] lbl = "m8b" -> [call |-> "utimens", via |-> "fd", ino |-> l.fd, atk |-> "set", at |-> Tm(l.now - Delta), mtk |-> "set", mt |-> Tm(l.now), ph |-> "lib"]
       [] lbl = "m8c" -> [call |-> "close", via |-> "fd", ino |-> l.fd, ph |-> "lib"]
-      [] lbl = "m9" -> [call |-> "close", via |-> "fd", dir |-> B, ph |-> "lib"]
+      [] lbl = "m9" -> [call |-> "close", via |-> "fd", dir |-> l.mb, ph |-> "lib"]
       \* maintenance: temporary-file cleanup
-      [] lbl = "c1" -> [call |-> "open", path |-> PT, flags |-> DIRFL, ph |-> "lib"]
-      [] lbl = "c2" -> [call |-> "stat", via |-> "fd", dir |-> TD, ph |-> "lib"]
-      [] lbl \in {"c3", "c5"} -> [call |-> "getdents", via |-> "fd", dir |-> TD, ph |-> "lib"]
-      [] lbl = "c4" -> [call |-> "stat", path |-> PTmp(l.names[l.idx]), nofollow |-> TRUE, ph |-> "lib"]
-      [] lbl = "c4u" -> [call |-> "unlink", path |-> PTmp(l.names[l.idx]), ph |-> "lib"]
-      [] lbl = "c6" -> [call |-> "close", via |-> "fd", dir |-> TD, ph |-> "lib"]
+      [] lbl = "c1" -> [call |-> "open", path |-> PathOfDir(TDof(l.mb)), flags |-> DIRFL, ph |-> "lib"]
+      [] lbl = "c2" -> [call |-> "stat", via |-> "fd", dir |-> TDof(l.mb), ph |-> "lib"]
+      [] lbl \in {"c3", "c5"} -> [call |-> "getdents", via |-> "fd", dir |-> TDof(l.mb), ph |-> "lib"]
+      [] lbl = "c4" -> [call |-> "stat", path |-> PIn(TDof(l.mb), l.names[l.idx]), nofollow |-> TRUE, ph |-> "lib"]
+      [] lbl = "c4u" -> [call |-> "unlink", path |-> PIn(TDof(l.mb), l.names[l.idx]), ph |-> "lib"]
+      [] lbl = "c6" -> [call |-> "close", via |-> "fd", dir |-> TDof(l.mb), ph |-> "lib"]
       \* publish (StampBeforePublish)
-      [] lbl = "p1" -> [call |-> "open", path |-> PTmp(l.tmp), flags |-> RO, ph |-> "lib"]
-      [] lbl = "p1w" -> [call |-> "open", path |-> PTmp(l.tmp), flags |-> WO, ph |-> "lib"]
+      [] lbl = "p1" -> [call |-> "open", path |-> PIn(l.td, l.tmp), flags |-> RO, ph |-> "lib"]
+      [] lbl = "p1w" -> [call |-> "open", path |-> PIn(l.td, l.tmp), flags |-> WO, ph |-> "lib"]
       [] lbl = "p2" -> [call |-> "utimens", via |-> "fd", ino |-> l.fd, atk |-> "set", at |-> Tm(l.now - Delta), mtk |-> "set", mt |-> Tm(l.now), ph |-> "lib"]
       [] lbl = "p3" -> [call |-> "close", via |-> "fd", ino |-> l.fd, ph |-> "lib"]
-      [] lbl = "p4" -> [call |-> "stat", path |-> PTmp(l.tmp), nofollow |-> TRUE, ph |-> "lib"]
-      [] lbl = "p5" -> [call |-> "chmod", path |-> PTmp(l.tmp), cmode |-> ChmodMode(l.stmode), ph |-> "lib"]
-      [] lbl = "p6" -> [call |-> IF l.op.api = "set" THEN "rename" ELSE "link", path |-> PTmp(l.tmp), path2 |-> PKey(k), ph |-> "lib"]
-      [] lbl = "q1" -> [call |-> "open", path |-> PKey(k), flags |-> RO, ph |-> "lib"]
-      [] lbl = "q2" -> [call |-> "open", path |-> PKey(k), flags |-> WO, ph |-> "lib"]
+      [] lbl = "p4" -> [call |-> "stat", path |-> PIn(l.td, l.tmp), nofollow |-> TRUE, ph |-> "lib"]
+      [] lbl = "p5" -> [call |-> "chmod", path |-> PIn(l.td, l.tmp), cmode |-> ChmodMode(l.stmode), ph |-> "lib"]
+      [] lbl = "p6" -> [call |-> IF l.op.api = "set" THEN "rename" ELSE "link", path |-> PIn(l.td, l.tmp), path2 |-> PIn(l.b, k), ph |-> "lib"]
+      [] lbl = "q1" -> [call |-> "open", path |-> PIn(l.b, k), flags |-> RO, ph |-> "lib"]
+      [] lbl = "q2" -> [call |-> "open", path |-> PIn(l.b, k), flags |-> WO, ph |-> "lib"]
       [] lbl = "q3" -> [call |-> "utimens", via |-> "fd", ino |-> l.fd, atk |-> "set", at |-> Tm(l.now), mtk |-> "omit", ph |-> "lib"]
       [] lbl = "q4" -> [call |-> "close", via |-> "fd", ino |-> l.fd, ph |-> "lib"]
-      [] lbl = "p7" -> [call |-> "unlink", path |-> PTmp(l.tmp), ph |-> "lib"]
-      \* RetryWholePublish: create_dir_all(parent of the destination)
-      [] lbl = "r1" -> [call |-> "mkdir", path |-> PB, cmode |-> 511, ph |-> "lib"]
-      [] lbl = "r1s" -> [call |-> "stat", path |-> PB, ph |-> "lib"]
+      [] lbl = "p7" -> [call |-> "unlink", path |-> PIn(l.td, l.tmp), ph |-> "lib"]
       \* application epilogue: does the source still exist; drop the NamedTempFile
-      [] lbl = "d1" -> [call |-> "stat", path |-> PTmp(l.tmp), nofollow |-> TRUE, ph |-> "app"]
-      [] lbl = "d2" -> [call |-> "unlink", path |-> PTmp(l.tmp), ph |-> "app"]
+      [] lbl = "d1" -> [call |-> "stat", path |-> PIn(l.td, l.tmp), nofollow |-> TRUE, ph |-> "app"]
+      [] lbl = "d2" -> [call |-> "unlink", path |-> PIn(l.td, l.tmp), ph |-> "app"]
       [] lbl = "d3" -> [call |-> "close", via |-> "fd", ino |-> l.tino, ph |-> "app"]
 
 NextCallAt(p, lbl) == NextCallL(p, loc[p], lbl)
 NextCall(p) == NextCallAt(p, pc[p])
 
 \* ---- results of a call in the model (trace mode takes them from the record) --
-IsAbsent(res) == res \in {"ENOENT", "ESTALE", "ENOTDIR"}   \* ENOTDIR is reported as NotFound-like by the kernel for a missing dir component
+IsAbsent(res) == res \in {"ENOENT", "ESTALE", "ENOTDIR"}
 
 Ret(c0, newino) ==
     LET rs == Pred(fs, c0, FALSE)
         res == IF "ok" \in rs \/ "ANY" \in rs THEN "ok" ELSE IF "ENOENT" \in rs THEN "ENOENT" ELSE CHOOSE r \in rs : TRUE
-        c1 == [c0 EXCEPT !.ph = c0.ph] @@ [res |-> res]
+        c1 == c0 @@ [res |-> res]
     IN IF res # "ok" THEN c1
        ELSE IF c0.call = "open" THEN
             LET tgt == Lookup(fs, c0.path) IN
@@ -199,48 +229,78 @@ Go(l, lbl) == [pc |-> lbl, loc |-> l, ret |-> <<>>, tick |-> FALSE]
 GoNow(l, lbl) == [pc |-> lbl, loc |-> [l EXCEPT !.now = clock], ret |-> <<>>, tick |-> TRUE]
 Done(l, ok, res, hit) == [pc |-> "ret", loc |-> l, ret |-> <<[ok |-> ok, res |-> res, hit |-> hit]>>, tick |-> FALSE]
 
-\* After maintenance (or without it) the publish sequence starts: reads the clock first.
+Min2(a, b) == IF a < b THEN a ELSE b
+Fail(l) == Go([l EXCEPT !.cont = "err"], IF l.tfd THEN "d1" ELSE "fail")
+\* create_dir_all(chain[1]) then continue at `ok` (or fail)
+MkdirAll(l, chain, okl) == Go([l EXCEPT !.mkq = chain, !.mki = 1, !.mkok = okl], "k1")
 StartPublish(l) == GoNow(l, "p1")
-PublishFailed(l) == IF l.att = 1 THEN Go(l, "r1") ELSE Go([l EXCEPT !.cont = "err"], "d1")
-\* prune finished (or skipped): go on with the temp cleanup, then publish
-AfterPrune(l) == Go(l, "c1")
+PublishFailed(l) == IF l.att = 1 THEN MkdirAll([l EXCEPT !.att = 2], Chain(l.b), "pub") ELSE Fail(l)
+\* maintenance of directory d (prune, then temp cleanup), then continue at mcont
+Maintain(l, d, cont) == Go([l EXCEPT !.mb = d, !.mcont = cont, !.maintained = TRUE], "m1")
+\* what follows a maintenance / a skipped one
+AfterMaint(l) ==
+    IF l.mcont = "publish" THEN StartPublish(l)
+    ELSE IF l.mcont = "tempdir" THEN Go(l, "a1")
+    ELSE \* "finish": a forced maintenance of a shard stores the count it found as that shard's estimate; the write is complete
+         Go([l EXCEPT !.cont = "ok", !.est = IF FrontKind = "sharded" THEN [l.est EXCEPT ![l.mb] = Min2(l.rem, 255)] ELSE l.est], "d1")
+\* end of the (sharded) write: maintain a random other shard if this write maintained, or this one if it looks overloaded
+\* (EstimateWrongShard: the estimate that is updated is h1's, whichever directory was written)
+EstAfter(l) == IF l.maintained THEN [l.est EXCEPT ![l.h1] = Min2(l.rem, 254) + 1]      \* the count the prune of the written shard returned, plus this file
+               ELSE [l.est EXCEPT ![l.h1] = IF @ < 255 THEN @ + 1 ELSE @]
+FinishWrite(l) ==
+    IF FrontKind = "plain" THEN Go([l EXCEPT !.cont = "ok"], "d1")
+    ELSE LET l2 == [l EXCEPT !.est = EstAfter(l)] IN
+         IF l.maintained THEN Go(l2, "y1")      \* maintain a random other shard
+         ELSE Go(l2, "z1")                      \* maintain this shard if its estimate says it is far over capacity
 
 EntryOf(name, st) == [id |-> name, rank |-> st.mt, acc |-> TLe(st.mt, st.at)]
 
 AfterL(p, l, lbl, c) ==
     LET ok == c.res = "ok" api == l.op.api IN
     CASE lbl = "g1" -> IF ok THEN Go([l EXCEPT !.fd = c.ino, !.hit = c.ino], "g2")
-                       ELSE IF IsAbsent(c.res) THEN Done(l, TRUE, "none", "") ELSE Done(l, FALSE, c.res, "")
+                       ELSE IF IsAbsent(c.res) THEN
+                            (IF l.probe = 1 /\ l.h2 # l.b THEN Go([l EXCEPT !.probe = 2, !.b = l.h2], "g1") ELSE Done(l, TRUE, "none", ""))
+                       ELSE Done(l, FALSE, c.res, "")
       [] lbl = "g2" -> IF ok /\ TLt(c.st.at, c.st.mt) THEN Go([l EXCEPT !.stat = c.st], "g3") ELSE Done(l, TRUE, "some", l.hit)
       [] lbl = "g3" -> Done(l, TRUE, "some", l.hit)
       [] lbl = "t1" -> IF ok THEN Go([l EXCEPT !.fd = c.ino], "t3")
                        ELSE IF WriteFallback THEN Go(l, "t2")
-                       ELSE IF IsAbsent(c.res) THEN Done(l, TRUE, "false", "") ELSE Done(l, FALSE, c.res, "")
+                       ELSE IF IsAbsent(c.res) THEN
+                            (IF l.probe = 1 /\ l.h2 # l.b THEN GoNow([l EXCEPT !.probe = 2, !.b = l.h2], "t1") ELSE Done(l, TRUE, "false", ""))
+                       ELSE Done(l, FALSE, c.res, "")
       [] lbl = "t2" -> IF ok THEN Go([l EXCEPT !.fd = c.ino], "t3")
-                       ELSE IF IsAbsent(c.res) THEN Done(l, TRUE, "false", "") ELSE Done(l, FALSE, c.res, "")
+                       ELSE IF IsAbsent(c.res) THEN
+                            (IF l.probe = 1 /\ l.h2 # l.b THEN GoNow([l EXCEPT !.probe = 2, !.b = l.h2], "t1") ELSE Done(l, TRUE, "false", ""))
+                       ELSE Done(l, FALSE, c.res, "")
       [] lbl = "t3" -> IF ok THEN Go(l, "t4") ELSE Done(l, FALSE, c.res, "")
       [] lbl = "t4" -> Done([l EXCEPT !.fd = ""], TRUE, "true", "")
       \* temp_dir()
-      [] lbl = "a1" -> IF ok /\ c.st.kind = "dir" THEN Go(l, "a3") ELSE Go(l, "a2")
-      [] lbl = "a2" -> IF ok THEN Go(l, "a3") ELSE IF IsAbsent(c.res) THEN Go(l, "a2b") ELSE Go(l, "a2s")
-      [] lbl = "a2s" -> IF ok /\ c.st.kind = "dir" THEN Go(l, "a3") ELSE Done(l, FALSE, "mkdir", "")
-      [] lbl = "a2b" -> IF ok THEN Go(l, "a2c") ELSE Go(l, "a2bs")
-      [] lbl = "a2bs" -> IF ok /\ c.st.kind = "dir" THEN Go(l, "a2c") ELSE Done(l, FALSE, "mkdir", "")
-      [] lbl = "a2c" -> IF ok THEN Go(l, "a3") ELSE Go(l, "a2cs")
-      [] lbl = "a2cs" -> IF ok /\ c.st.kind = "dir" THEN Go(l, "a3") ELSE Done(l, FALSE, "mkdir", "")
+      [] lbl = "a1" -> IF ok /\ c.st.kind = "dir" THEN Go(l, "a3") ELSE MkdirAll(l, Chain(l.td), "a3")
+      \* create_dir_all: first attempt at level mki
+      [] lbl = "k1" -> IF ok THEN (IF l.mki = 1 THEN Go(l, l.mkok) ELSE Go([l EXCEPT !.mki = @ - 1], "k2"))
+                       ELSE IF IsAbsent(c.res) /\ l.mki < Len(l.mkq) THEN Go([l EXCEPT !.mki = @ + 1], "k1")
+                       ELSE IF IsAbsent(c.res) THEN Fail(l)
+                       ELSE Go(l, "k1s")
+      [] lbl = "k1s" -> IF ok /\ c.st.kind = "dir" THEN (IF l.mki = 1 THEN Go(l, l.mkok) ELSE Go([l EXCEPT !.mki = @ - 1], "k2")) ELSE Fail(l)
+      \* second attempt (after the parent was created)
+      [] lbl = "k2" -> IF ok THEN (IF l.mki = 1 THEN Go(l, l.mkok) ELSE Go([l EXCEPT !.mki = @ - 1], "k2")) ELSE Go(l, "k2s")
+      [] lbl = "k2s" -> IF ok /\ c.st.kind = "dir" THEN (IF l.mki = 1 THEN Go(l, l.mkok) ELSE Go([l EXCEPT !.mki = @ - 1], "k2")) ELSE Fail(l)
       [] lbl = "a3" -> IF ok THEN Go([l EXCEPT !.tmp = c.path.n, !.tino = c.ino, !.tfd = TRUE, !.wr = 0], "a4")
                        ELSE Done(l, FALSE, c.res, "")
       [] lbl = "a4" -> IF ~ok THEN Go([l EXCEPT !.cont = "err"], "d2")
                        ELSE IF l.wr + 1 < l.op.chunks THEN Go([l EXCEPT !.wr = @ + 1], "a4")
-                       ELSE Go([l EXCEPT !.wr = @ + 1, !.att = 1], "s1")
+                       ELSE Go([l EXCEPT !.wr = @ + 1, !.att = 1, !.maintained = FALSE], IF FrontKind = "plain" THEN "s1" ELSE "x1")
+      \* sharded: write to h2 iff the key already lives there (only NotFound means absent), else to h1
+      [] lbl = "x1" -> IF ok THEN Go([l EXCEPT !.b = l.h2], "s1")
+                       ELSE IF c.res = "ENOENT" THEN Go([l EXCEPT !.b = l.h1], "s1")
+                       ELSE Fail(l)
       \* prune
-      [] lbl = "m1" -> IF ok THEN Go([l EXCEPT !.dfd = B], "m2")
-                       ELSE IF IsAbsent(c.res) THEN StartPublish(l) ELSE Go([l EXCEPT !.cont = "err"], "d1")
+      [] lbl = "m1" -> IF ok THEN Go([l EXCEPT !.dfd = l.mb], "m2")
+                       ELSE IF IsAbsent(c.res) THEN AfterMaint(l) ELSE Fail(l)
       [] lbl = "m2" -> Go(l, "m3")
       [] lbl = "m3" -> \* dot-prefixed names are skipped without a stat: they are never cache entries
                        LET ns == SelectSeq(c.names, LAMBDA n : FirstChar(n) # ".") IN
-                       IF c.names = <<>> THEN Go([l EXCEPT !.ents = <<>>], "m9")
-                       ELSE IF ns = <<>> THEN Go([l EXCEPT !.ents = <<>>, !.names = <<>>], "m5")
+                       IF ns = <<>> THEN Go([l EXCEPT !.ents = <<>>, !.names = <<>>], "m5")
                        ELSE Go([l EXCEPT !.names = ns, !.idx = 1, !.ents = <<>>], "m4")
       [] lbl = "m4" ->
             LET l2 == IF ok /\ c.st.kind # "dir" THEN [l EXCEPT !.ents = Append(@, EntryOf(l.names[l.idx], c.st))] ELSE l IN
@@ -250,7 +310,7 @@ AfterL(p, l, lbl, c) ==
             LET pl == Plan(l.ents, l.cap)
                 ev == [i \in 1..Len(pl.evict) |-> pl.evict[i].id]
                 bk == [i \in 1..Len(pl.back) |-> pl.back[i].id]
-                l2 == [l EXCEPT !.evict = ev, !.back = bk, !.idx = 1]
+                l2 == [l EXCEPT !.evict = ev, !.back = bk, !.idx = 1, !.rem = Len(l.ents) - Len(ev)]
             IN IF ev # <<>> THEN Go(l2, "m7") ELSE IF bk # <<>> THEN GoNow(l2, "m8a") ELSE Go(l2, "m9")
       [] lbl = "m7" ->
             IF ~ok /\ ~IsAbsent(c.res) THEN Go([l EXCEPT !.cont = "err"], "m9")
@@ -265,17 +325,17 @@ AfterL(p, l, lbl, c) ==
                         ELSE Go([l EXCEPT !.cont = "err"], "m9")
       [] lbl = "m8b" -> Go(l, "m8c")
       [] lbl = "m8c" -> IF l.idx < Len(l.back) THEN GoNow([l EXCEPT !.idx = @ + 1, !.fd = ""], "m8a") ELSE Go([l EXCEPT !.fd = ""], "m9")
-      [] lbl = "m9" -> IF l.cont = "err" THEN Go([l EXCEPT !.dfd = ""], "d1") ELSE AfterPrune([l EXCEPT !.dfd = ""])
+      [] lbl = "m9" -> IF l.cont = "err" THEN Fail([l EXCEPT !.dfd = ""]) ELSE Go([l EXCEPT !.dfd = ""], "c1")
       \* temp cleanup
-      [] lbl = "c1" -> IF ok THEN Go([l EXCEPT !.dfd = TD], "c2")
-                       ELSE IF IsAbsent(c.res) THEN StartPublish(l) ELSE Go([l EXCEPT !.cont = "err"], "d1")
+      [] lbl = "c1" -> IF ok THEN Go([l EXCEPT !.dfd = TDof(l.mb)], "c2")
+                       ELSE IF IsAbsent(c.res) THEN AfterMaint(l) ELSE Fail(l)
       [] lbl = "c2" -> Go(l, "c3")
-      [] lbl = "c3" -> IF c.names = <<>> THEN Go(l, "c6") ELSE Go([l EXCEPT !.names = c.names, !.idx = 1], "c4")
+      [] lbl = "c3" -> IF c.names = <<>> THEN Go(l, "c5") ELSE Go([l EXCEPT !.names = c.names, !.idx = 1], "c4")
       [] lbl = "c4" -> IF ok THEN Go([l EXCEPT !.stat = c.st], "c4d")    \* is it older than the limit? (local decision)
                        ELSE IF l.idx < Len(l.names) THEN Go([l EXCEPT !.idx = @ + 1], "c4") ELSE Go(l, "c5")
       [] lbl = "c4u" -> IF l.idx < Len(l.names) THEN Go([l EXCEPT !.idx = @ + 1], "c4") ELSE Go(l, "c5")
       [] lbl = "c5" -> Go(l, "c6")
-      [] lbl = "c6" -> StartPublish([l EXCEPT !.dfd = ""])
+      [] lbl = "c6" -> AfterMaint([l EXCEPT !.dfd = ""])
       \* publish
       [] lbl = "p1" -> IF ok THEN Go([l EXCEPT !.fd = c.ino], "p2") ELSE IF WriteFallback THEN Go(l, "p1w") ELSE PublishFailed(l)
       [] lbl = "p1w" -> IF ok THEN Go([l EXCEPT !.fd = c.ino], "p2") ELSE PublishFailed(l)
@@ -293,30 +353,40 @@ AfterL(p, l, lbl, c) ==
                        ELSE IF IsAbsent(c.res) THEN Go(l, "p7") ELSE PublishFailed(l)
       [] lbl = "q3" -> IF ok THEN Go(l, "q4") ELSE PublishFailed(l)
       [] lbl = "q4" -> Go([l EXCEPT !.fd = ""], "p7")
-      [] lbl = "p7" -> IF ok \/ IsAbsent(c.res) THEN Go([l EXCEPT !.cont = "ok"], "d1") ELSE PublishFailed(l)
-      [] lbl = "r1" -> IF ok THEN StartPublish([l EXCEPT !.att = 2]) ELSE Go(l, "r1s")
-      [] lbl = "r1s" -> IF ok /\ c.st.kind = "dir" THEN StartPublish([l EXCEPT !.att = 2]) ELSE Go([l EXCEPT !.cont = "err"], "d1")
+      [] lbl = "p7" -> IF ok \/ IsAbsent(c.res) THEN FinishWrite(l) ELSE PublishFailed(l)
       \* application epilogue
       [] lbl = "d1" -> Go(l, "d2")
       [] lbl = "d2" -> Go(l, "d3")
       [] lbl = "d3" -> Done([l EXCEPT !.tfd = FALSE], l.cont = "ok", IF l.cont = "ok" THEN "unit" ELSE "err", "")
 
-
 AfterAt(p, lbl, c) == AfterL(p, loc[p], lbl, c)
 After(p, c) == AfterAt(p, pc[p], c)
 
-\* Local decisions that depend on the participant's clock or random draws.  In the exhaustive
-\* configurations they are actions of their own; in trace validation they are inferred from the
-\* call that follows (TraceKismet!Alts).
+\* Local decisions that depend on the participant's clock, random draws or in-memory estimates.  In the exhaustive
+\* configurations they are actions of their own; in trace validation they are inferred from the call that follows
+\* (TraceKismet!Alts).
 DecideOld(l, old) ==
     IF old THEN [pc |-> "c4u", loc |-> l]
     ELSE IF l.idx < Len(l.names) THEN [pc |-> "c4", loc |-> [l EXCEPT !.idx = @ + 1]] ELSE [pc |-> "c5", loc |-> l]
-DecideFire(l, fire) == [pc |-> IF fire THEN "m1" ELSE "p1", loc |-> [l EXCEPT !.fired = fire]]
+\* "s1": the write's own trigger event: maintain the target directory first, or publish at once
+DecideFire(l, fire) == IF fire THEN [pc |-> "m1", loc |-> [l EXCEPT !.fired = TRUE, !.mb = l.b, !.mcont = "publish", !.maintained = TRUE]]
+                       ELSE [pc |-> "p1", loc |-> [l EXCEPT !.fired = FALSE]]
+\* "s0": sharded temp_dir(key): a trigger event decides whether the temp directory is cleaned first
+DecideTempClean(l, fire) == IF fire THEN [pc |-> "c1", loc |-> [l EXCEPT !.mb = ParentOfTemp(l.td), !.mcont = "tempdir"]]
+                            ELSE [pc |-> "a1", loc |-> l]
+\* "y1": which other shard gets maintained (two shards: the other one)
+DecideOther(l) == [pc |-> "m1", loc |-> [l EXCEPT !.mb = OtherShard(l.b), !.mcont = "finish", !.rem = 0]]
+\* "z1": forced maintenance of the written shard when the (saturating, possibly stale) estimate of h1 is more than twice the capacity
+DecideForced(l, forced) == IF forced THEN [pc |-> "m1", loc |-> [l EXCEPT !.mb = l.b, !.mcont = "finish", !.rem = 0]]
+                           ELSE [pc |-> "d1", loc |-> [l EXCEPT !.cont = "ok"]]
+\* the order of the two candidates by load (clamped at capacity; ties: primary first)
+Clamp(x, c) == IF x > c THEN c ELSE x
+OrderByLoad(l, dirs) == IF Clamp(l.est[dirs[1]], l.cap) <= Clamp(l.est[dirs[2]], l.cap) THEN dirs ELSE <<dirs[2], dirs[1]>>
 
 \* ---- monitor bookkeeping (same definitions as the trace specification) --------
 NewPubsK(f, pubs) ==
-    LET ks == IF B \in DOMAIN f.ents THEN {n \in DOMAIN f.ents[B] : IsKeyName(n) /\ f.ents[B][n] # "DIR"} ELSE {}
-    IN [i \in {f.ents[B][n] : n \in ks} |-> TRUE] @@ pubs
+    LET cands == UNION {{f.ents[b][n] : n \in {x \in DOMAIN f.ents[b] : IsKeyName(x) /\ f.ents[b][x] # "DIR"}} : b \in BaseDirs \cap DOMAIN f.ents}
+    IN [i \in cands |-> TRUE] @@ pubs
 
 S == [fs |-> fs, pubs |-> aux.pubs, supplied |-> aux.supplied, planted |-> {},
       cur |-> [p \in {q \in Procs : loc[q].opi > 0} |-> Op(p)]]
@@ -327,22 +397,32 @@ Alive(p) == p \notin aux.crashed
 Begin(p) ==
     /\ Alive(p) /\ pc[p] = "idle" /\ loc[p].opi < Len(Prog[p])
     /\ LET o == Prog[p][loc[p].opi + 1]
-           l == [IdleLoc EXCEPT !.opi = loc[p].opi + 1, !.op = o, !.now = clock]
+           dirs == KeyDirsOf(o.key)
+           ord == IF FrontKind = "plain" THEN dirs ELSE OrderByLoad(loc[p], dirs)
+           base == [IdleLoc EXCEPT !.opi = loc[p].opi + 1, !.op = o, !.now = clock, !.est = loc[p].est]
+           l == IF o.api \in {"get", "touch"} THEN [base EXCEPT !.b = dirs[1], !.h1 = dirs[1], !.h2 = dirs[2], !.probe = 1]
+                ELSE [base EXCEPT !.h1 = ord[1], !.h2 = ord[2], !.b = ord[1], !.td = TDof(ord[1])]
        IN /\ loc' = [loc EXCEPT ![p] = l]
-          /\ pc' = [pc EXCEPT ![p] = IF o.api = "get" THEN "g1" ELSE IF o.api = "touch" THEN "t1" ELSE "a1"]
+          /\ pc' = [pc EXCEPT ![p] = IF o.api = "get" THEN "g1" ELSE IF o.api = "touch" THEN "t1"
+                                     ELSE IF FrontKind = "plain" THEN "a1" ELSE "s0"]
           /\ aux' = [aux EXCEPT !.supplied = @ \cup (IF o.api \in {"set", "put"} THEN {<<o.key, o.val>>} ELSE {})]
           /\ last' = [e |-> "call", p |-> p, api |-> o.api, key |-> o.key]
     /\ clock' = clock + 1
     /\ UNCHANGED <<fs, nino>>
 
-\* The trigger: a thread-local countdown; whether it fires on this write is a function of
-\* earlier random draws, i.e. nondeterministic here (its arithmetic is Trigger.tla's business).
+\* The trigger: a thread-local countdown; whether it fires on this event is a function of earlier random draws,
+\* i.e. nondeterministic here (its arithmetic is Trigger.tla's business).
+Fires == IF Maint = "never" THEN {FALSE} ELSE IF Maint = "always" THEN {TRUE} ELSE BOOLEAN
 Trigger(p) ==
-    /\ Alive(p) /\ pc[p] = "s1"
-    /\ \E fire \in (IF Maint = "never" THEN {FALSE} ELSE IF Maint = "always" THEN {TRUE} ELSE BOOLEAN) :
-          /\ pc' = [pc EXCEPT ![p] = DecideFire(loc[p], fire).pc]
-          /\ loc' = [loc EXCEPT ![p] = [DecideFire(loc[p], fire).loc EXCEPT !.now = clock]]
-          /\ last' = [e |-> "trigger", p |-> p, fire |-> fire]
+    /\ Alive(p) /\ pc[p] \in {"s0", "s1", "y1", "z1"}
+    /\ \E fire \in (IF pc[p] \in {"y1", "z1"} THEN {TRUE} ELSE Fires) :
+          LET d == IF pc[p] = "s1" THEN DecideFire(loc[p], fire)
+                   ELSE IF pc[p] = "s0" THEN DecideTempClean(loc[p], fire)
+                   ELSE IF pc[p] = "y1" THEN DecideOther(loc[p])
+                   ELSE DecideForced(loc[p], loc[p].est[loc[p].h1] \div 2 > loc[p].cap)
+          IN /\ pc' = [pc EXCEPT ![p] = d.pc]
+             /\ loc' = [loc EXCEPT ![p] = [d.loc EXCEPT !.now = clock]]
+             /\ last' = [e |-> "trigger", p |-> p, fire |-> fire, at |-> pc[p]]
     /\ clock' = clock + 1
     /\ UNCHANGED <<fs, nino, aux>>
 
@@ -353,6 +433,18 @@ AgeCheck(p) ==
        IN pc' = [pc EXCEPT ![p] = d.pc] /\ loc' = [loc EXCEPT ![p] = d.loc]
     /\ last' = [e |-> "tau", p |-> p]
     /\ UNCHANGED <<fs, clock, nino, aux>>
+
+\* internal continuations of the create_dir_all sub-machine and of failures without an open temp file
+Internal(p) ==
+    /\ Alive(p) /\ pc[p] \in {"pub", "fail"}
+    /\ LET l == loc[p]
+           nx == IF pc[p] = "pub" THEN StartPublish(l) ELSE Done(l, FALSE, "err", "")
+       IN /\ pc' = [pc EXCEPT ![p] = nx.pc] /\ loc' = [loc EXCEPT ![p] = nx.loc]
+          /\ aux' = [aux EXCEPT !.rets = IF nx.ret # <<>> THEN (p :> (nx.ret[1] @@ [api |-> Op(p).api, key |-> Op(p).key])) @@ @ ELSE @,
+                                !.errs = IF nx.ret # <<>> /\ ~nx.ret[1].ok THEN @ \cup {<<p, l.opi, nx.ret[1].res>>} ELSE @]
+          /\ clock' = IF nx.tick THEN clock + 1 ELSE clock
+    /\ last' = [e |-> "tau", p |-> p]
+    /\ UNCHANGED <<fs, nino>>
 
 Sys(p) ==
     /\ Alive(p) /\ pc[p] \in SysLabels
@@ -384,15 +476,15 @@ Crash(p) ==
     /\ UNCHANGED <<fs, clock, nino, pc, loc>>
 
 AdvDelete ==
-    /\ aux.advs < AdvBudget /\ B \in DOMAIN fs.ents
-    /\ \E n \in {x \in DOMAIN fs.ents[B] : IsKeyName(x) /\ fs.ents[B][x] # "DIR"} :
-          /\ fs' = Eff(fs, [call |-> "unlink", path |-> PKey(n), res |-> "ok"], [inos |-> <<>>], 0)
+    /\ aux.advs < AdvBudget
+    /\ \E b \in BaseDirs \cap DOMAIN fs.ents : \E n \in {x \in DOMAIN fs.ents[b] : IsKeyName(x) /\ fs.ents[b][x] # "DIR"} :
+          /\ fs' = Eff(fs, [call |-> "unlink", path |-> PIn(b, n), res |-> "ok"], [inos |-> <<>>], 0)
           /\ last' = [e |-> "advdel", n |-> n]
     /\ aux' = [aux EXCEPT !.advs = @ + 1]
     /\ UNCHANGED <<clock, nino, pc, loc>>
 
 Next ==
-    \/ \E p \in Procs : Begin(p) \/ Trigger(p) \/ AgeCheck(p) \/ Sys(p) \/ Return(p) \/ Crash(p)
+    \/ \E p \in Procs : Begin(p) \/ Trigger(p) \/ AgeCheck(p) \/ Internal(p) \/ Sys(p) \/ Return(p) \/ Crash(p)
     \/ AdvDelete
 
 Spec == Init /\ [][Next]_vars
@@ -414,31 +506,37 @@ StepImmutable == [][last'.e = "sys" => LET e == last' IN
 StepReadOnlyFirst == [][last'.e = "sys" => ReadOnlyFirst(Cfg, S, last')]_vars
 \* C06: a live participant in the middle of an operation always has a step of its own
 InvNonBlocking == \A p \in Procs : Alive(p) /\ pc[p] \notin {"idle"} =>
-                      ENABLED (Trigger(p) \/ AgeCheck(p) \/ Sys(p) \/ Return(p))
-\* C17 at design level: maintenance removes only key-named entries and stale temp files
+                      ENABLED (Trigger(p) \/ AgeCheck(p) \/ Internal(p) \/ Sys(p) \/ Return(p))
+\* C17 at design level: maintenance removes only key-named entries and stale (or its own) temp files
 StepRemoval == [][last'.e = "sys" /\ last'.call = "unlink" /\ last'.res = "ok" /\ last'.ph = "lib" =>
                     LET d == DirOf(last'.path) i == Lookup(fs, last'.path) IN
-                    \/ d = B /\ IsKeyName(last'.path.n)
-                    \/ d = TD /\ (\/ last'.path.n = loc[last'.p].tmp          \* its own temporary file
-                                  \/ TLt(<<fs.inos[i].mt[1] + MaxAge, 0>>, Tm(clock)))]_vars   \* or a stale one
+                    \/ d \in BaseDirs /\ IsKeyName(last'.path.n)
+                    \/ IsTempDir(d) /\ (\/ last'.path.n = loc[last'.p].tmp          \* its own temporary file
+                                        \/ TLt(<<fs.inos[i].mt[1] + MaxAge, 0>>, Tm(clock)))]_vars   \* or a stale one
+\* C11 at design level (sequential use of a sharded root is a special case of every interleaving with one participant)
+InvOneCopy == FrontKind = "sharded" /\ Cardinality(Procs) = 1 =>
+                 \A k \in UNION {{Prog[p][i].key : i \in 1..Len(Prog[p])} : p \in Procs} :
+                     Cardinality({b \in BaseDirs \cap DOMAIN fs.ents : k \in DOMAIN fs.ents[b]}) <= 1
 
-\* C04 at design level (refinement of Register.tla under the mapping "value of k = value of the inode bound at W/k"):
-\* the abstract value of a key changes only at the linearization point of a write -- set's rename (to the setter's
-\* value, whatever was there), put's successful link (only from absent) -- or by an eviction / outside deletion.
-Abs(f, k) == IF B \in DOMAIN f.ents /\ k \in DOMAIN f.ents[B] /\ f.ents[B][k] \in DOMAIN f.inos
-             THEN f.inos[f.ents[B][k]].c.val ELSE "none"
+\* C04 at design level (refinement of Register.tla under the mapping "value of k = value of the inode bound under k
+\* in the first candidate directory that has it"): the abstract value of a key changes only at the linearization point
+\* of a write -- set's rename (to the setter's value), put's successful link (only from absent) -- or by an eviction /
+\* outside deletion.
+AbsIn(f, b, k) == IF b \in DOMAIN f.ents /\ k \in DOMAIN f.ents[b] /\ f.ents[b][k] \in DOMAIN f.inos
+                  THEN f.inos[f.ents[b][k]].c.val ELSE "none"
+Abs(f, k) == LET d == KeyDirsOf(k) IN IF AbsIn(f, d[1], k) # "none" THEN AbsIn(f, d[1], k) ELSE AbsIn(f, d[2], k)
 AllKeys == UNION {{Prog[p][i].key : i \in 1..Len(Prog[p])} : p \in Procs} \cup {e.key : e \in Pre}
-StepRegister == [][\A k \in AllKeys : LET a == Abs(fs, k) b == Abs(fs', k) IN
+StepRegister == [][FrontKind = "plain" => \A k \in AllKeys : LET a == Abs(fs, k) b == Abs(fs', k) IN
                     a # b =>
-                       \/ last'.e = "sys" /\ last'.call = "rename" /\ last'.res = "ok" /\ last'.api = "set" /\ last'.path2 = PKey(k)
+                       \/ last'.e = "sys" /\ last'.call = "rename" /\ last'.res = "ok" /\ last'.api = "set" /\ last'.path2.n = k
                           /\ b = loc[last'.p].op.val
-                       \/ last'.e = "sys" /\ last'.call = "link" /\ last'.res = "ok" /\ last'.api = "put" /\ last'.path2 = PKey(k)
+                       \/ last'.e = "sys" /\ last'.call = "link" /\ last'.res = "ok" /\ last'.api = "put" /\ last'.path2.n = k
                           /\ a = "none" /\ b = loc[last'.p].op.val
                        \/ last'.e = "sys" /\ last'.call = "unlink" /\ last'.ph = "lib" /\ b = "none" /\ pc[last'.p] = "m7"
                        \/ last'.e = "advdel" /\ b = "none"]_vars
-\* a lookup returns the abstract value the key had at its linearization point (the open): the handle it got is the inode bound then
+\* a lookup returns the value bound at its linearization point (the open): the handle it got is the inode bound then
 StepGetLin == [][last'.e = "sys" /\ last'.api = "get" /\ last'.pcl = "g1" /\ last'.res = "ok" =>
-                    fs.inos[last'.ino].c.val = Abs(fs, last'.path.n)]_vars
+                    fs.inos[last'.ino].c.val = AbsIn(fs, DirOf(last'.path), last'.path.n)]_vars
 
 \* observation variables are kept out of the state space
 View == <<fs, pc, loc, aux.pubs, aux.errs, aux.crashed, aux.advs, aux.rets>>
